@@ -19,7 +19,7 @@ ASSUMPTIONS = ["the theorems are about the SF-core fragment (Interp.v); recipes 
 W = dict(case_twin=0.07, dual_fwd=0.25, fwd=0.5, nick=0.55, ref=0.32, zero_count=0.18, once=0.25, hidden_table=0.12, formula=0.25, randref=0.08)
 
 
-DIRECTED = [S.stream_late_forward_reference, S.stream_stale_slot, S.stream_idle_middle, S.stream_shared_nick_forward, S.stream_once_cluster, S.stream_randref_nicks, S.stream_nick_spelled_like_table]
+DIRECTED = [S.stream_history_rows_hold_once_refs, S.stream_late_forward_reference, S.stream_stale_slot, S.stream_idle_middle, S.stream_shared_nick_forward, S.stream_once_cluster, S.stream_randref_nicks, S.stream_nick_spelled_like_table]
 
 
 def gen_case(rng):
@@ -29,7 +29,8 @@ def gen_case(rng):
         k = rng.choice([2, 3, 4, 4])
         # (a just_once row holding a reference cannot be written to a continuation file: K1/K2 of C04/C05)
         cut = rng.random() < 0.8 and not row_valued_in_once(r)
-        return {"recipe": r, "ks": S.random_cuts(rng, k) if cut else [k], "features": feats}
+        ks = S.random_cuts(rng, k) if cut else [k]
+        return {"recipe": r, "ks": ks, "features": feats, "retry": len(ks) > 1 and rng.random() < 0.5}
     r, feats = S.gen_recipe(rng, W)
     k = rng.choice([1, 2, 2, 3, 4])
     ks = [k]
@@ -37,7 +38,7 @@ def gen_case(rng):
         # split the k iterations into a chain of continuation runs
         cut = sorted(rng.sample(range(1, k), rng.randint(1, k - 1)))
         ks = [b - a for a, b in zip([0] + cut, cut + [k])]
-    return {"recipe": r, "ks": ks, "features": feats}
+    return {"recipe": r, "ks": ks, "features": feats, "retry": len(ks) > 1 and rng.random() < 0.5}
 
 
 def generate(rng, tier):
@@ -48,9 +49,16 @@ def generate(rng, tier):
 def run_impl(case):
     runs, cont = [], None
     ks = case["ks"]
+    retry = None
     for i, k in enumerate(ks):
+        off = sum(len(r.get("draws", [])) for r in runs)
         o = S.run_recipe(case["recipe"], reps=k, continuation=cont, want_continuation=(i < len(ks) - 1),
-                         draw_offset=sum(len(r.get("draws", [])) for r in runs))
+                         draw_offset=off)
+        if cont is not None and i == len(ks) - 1 and "ok" in o and case.get("retry"):
+            # the same continuation file used a second time in this process (a retry): it must resume
+            # numbering after the ids the FILE records, exactly as the first attempt did
+            o2 = S.run_recipe(case["recipe"], reps=k, continuation=cont, want_continuation=False, draw_offset=off)
+            retry = {kk: vv for kk, vv in o2.items() if kk not in ("cont", "draws")}
         cont = o.get("cont")
         runs.append({kk: vv for kk, vv in o.items() if kk != "cont"})
         if "ok" not in o:
@@ -58,7 +66,10 @@ def run_impl(case):
         if i < len(ks) - 1:
             import yaml
             runs[-1]["last_used_ids"] = yaml.safe_load(cont)["id_manager"]["last_used_ids"]
-    return {"runs": runs}
+    out = {"runs": runs}
+    if retry is not None:
+        out["retry"] = retry
+    return out
 
 
 def coq_case(case, obs):
@@ -79,6 +90,13 @@ def oracle(case, obs):
             if r["err"] != "DGE":
                 return f"internal-error: {r['err']}: {r.get('msg','')[:120]}"
             return None
+    if "retry" in obs:
+        rt = obs["retry"]
+        if "ok" not in rt:
+            return f"retry-differs: the last run of history {case['ks']} completes, a second run from the same continuation file fails with {rt.get('err')}"
+        if S.ids_by_table(rt["ok"]) != S.ids_by_table(runs[-1]["ok"]):
+            return (f"retry-differs: a second run from the same continuation file wrote ids {S.ids_by_table(rt['ok'])}, "
+                    f"the first attempt {S.ids_by_table(runs[-1]['ok'])}")
     allrows = [row for r in runs for row in r["ok"]]
     for t, ids in S.ids_by_table(allrows).items():
         if sorted(ids) != list(range(1, len(ids) + 1)):
@@ -107,6 +125,7 @@ def stats(cases, obss):
     from collections import Counter
     st = S.feature_stats(cases, [o["runs"][-1] for o in obss if isinstance(o, dict) and o.get("runs")])
     st["histories"] = dict(Counter("+".join(map(str, c["ks"])) for c in cases))
+    st["retries_from_the_same_continuation_file"] = sum(1 for o in obss if isinstance(o, dict) and "retry" in o)
     return st
 
 
